@@ -8,6 +8,8 @@ from props.common import quiet_ccp
 
 ID = "C19"
 LEAN_MODULES = ["Ccp.Props.C19", "Ccp.Props.RxC19"]
+# bound of the escalated quick run (source fingerprint changed -> thorough generator): keeps that run near two minutes
+ESCALATE_MAX_CASES = 70000
 RULE = ("three kinds of case. (1) intf: an interface stanza rendered from a structured description -- name = prefix + 1..3 numbers "
         "[:channel][.sub] + optional class word; ten main attributes (description, address, vrf, mtu, shutdown, bare switchport, "
         "access vlan, native vlan, allowed vlans, channel-group) under all 2^10 presence masks with values over their ranges "
